@@ -3,7 +3,7 @@ from __future__ import annotations
 import ast
 from fractions import Fraction as F
 from ..core import expr as X
-from ..core.interp import Interp, Obj, Vec, FuncRef, Opaque, RaiseSignal
+from ..core.interp import Interp, Obj, Vec, FuncRef, Opaque, RaiseSignal, concrete
 from ..core.lints import loop_progress, mutation_effects, prune_flags
 from ..core.regions import sign_of, POS
 from ..core.report import AnalysisError
@@ -16,7 +16,7 @@ LEVEL_TEXT = ('Termination is decided by a progress rule on every loop (an exit 
               'the bookkeeping identities (volumes telescope, radii increase, gravity, enclosed mass, contiguity in every derived-geometry path, scaling) are exact identities of the extracted formulas '
               'for symbolic radii, thicknesses, masses and slice counts 2..5.')
 LEVEL_NOTE = 'Trusted: front-end, interpreter, real algebra (rounding of sums not decided). The shipped world configuration files are checked as data (R16.6), not run through the builder.'
-EXPLANATION = 'R16.1 loop progress; R16.2 inputs not mutated; R16.3 geometry/mass identities (also when the slice arrays were pre-filled by the layers, build_slices=False); R16.4 radius scaling and distinct names along derivation chains; R16.5 mass bookkeeping survives a derivation (parent reinit -> scale/build_from_world -> derived reinit); R16.6 the shipped non-BurnMan layered configurations (directory and zip copies) state positive, strictly increasing radii that end at the world radius.'
+EXPLANATION = 'R16.1 loop progress; R16.2 inputs not mutated; R16.3 geometry/mass identities (also when the slice arrays were pre-filled by the layers, build_slices=False); R16.4 radius scaling and distinct names along derivation chains; R16.5 mass bookkeeping survives a derivation (parent reinit -> scale/build_from_world -> derived reinit); R16.7 LayeredWorld builds its layers in configuration order for every way of placing them (radius, thickness, mixed); R16.6 the shipped non-BurnMan layered configurations (directory and zip copies) state positive, strictly increasing radii that end at the world radius.'
 
 
 def run(chk):
@@ -240,9 +240,72 @@ def run(chk):
     # ------------------------------------------------------------------ R16.4 scaling and names
     scaling(chk, repo, mw, d, eq)
     derivation_mass(chk, repo, mw, d)
+    layer_order(chk, repo)
     shipped_configs(chk)
     chk.floor('R16.1', 5); chk.floor('R16.2', 5); chk.floor('R16.3', 30); chk.floor('R16.4', 50)
     chk.assume('radius > thickness > 0, masses > 0')
+
+
+def layer_order(chk, repo):
+    """R16.7 LayeredWorld.__init__ builds its layers bottom to top in the order the configuration lists them -- whatever mix of `radius` / `thickness` entries places them
+    (a layer given only a thickness holds its place through that order alone) -- numbers them 0..n-1, marks only the last one as the top layer and leaves the configuration's
+    own order untouched."""
+    mlw = repo.by_path('TidalPy/structures/world_types/layered.py')
+    wcls = need_class(mlw, 'LayeredWorld')
+    init = methods(wcls).get('__init__')
+    if init is None:
+        raise AnalysisError('LayeredWorld.__init__ vanished')
+    # concrete, strictly increasing radii (only the order matters here; code that sorts or compares them can then be followed)
+    from fractions import Fraction as _F
+    r = [X.const(v_) for v_ in (10, 20, 30, 40)]; t = [X.const(_F(v_)) for v_ in (10, 10, 10, 10)]
+    forms = {
+        'radius everywhere': [('Core', {'radius': r[0]}), ('Mantle', {'radius': r[1]}), ('Ocean', {'radius': r[2]}), ('Shell', {'radius': r[3]})],
+        'thickness everywhere': [('Core', {'thickness': t[0]}), ('Mantle', {'thickness': t[1]}), ('Ocean', {'thickness': t[2]}), ('Shell', {'thickness': t[3]})],
+        'a thickness-only layer below radius-defined ones': [('Core', {'radius': r[0]}), ('Mantle', {'radius': r[1]}), ('Ocean', {'thickness': t[2]}), ('Shell', {'radius': r[3]})],
+        'thickness-only core': [('Core', {'thickness': t[0]}), ('Mantle', {'radius': r[1]}), ('Crust', {'radius': r[2]})],
+        'bare top layer': [('Core', {'radius': r[0]}), ('Mantle', {'thickness': t[1]}), ('Crust', {})],
+        'names not in alphabetical or radius order': [('Zeta', {'radius': r[0]}), ('alpha', {'radius': r[1], 'thickness': t[1]}), ('Mid', {'thickness': t[2]})],
+    }
+    for lab, layers in forms.items():
+        built = []
+
+        def expr_hook(itp, e, fr):
+            if isinstance(e, ast.Call) and isinstance(e.func, ast.Attribute) and isinstance(e.func.value, ast.Call) and isinstance(e.func.value.func, ast.Name) and e.func.value.func.id == 'super':
+                return Opaque('parent constructor')
+            if isinstance(e, ast.Subscript) and 'layers_class_by_world_class' in ast.unparse(e.value):
+                return Opaque('LayerClass')
+            return NotImplemented
+
+        def call_hook(itp, f, args, kwargs, e, fr):
+            if isinstance(f, Opaque) and f.name == 'LayerClass':
+                built.append({'name': args[0] if args else kwargs.get('layer_name'), 'index': args[1] if len(args) > 1 else kwargs.get('layer_index'),
+                              'config': args[3] if len(args) > 3 else kwargs.get('layer_config'), 'top': args[4] if len(args) > 4 else kwargs.get('is_top_layer')})
+                return Obj(name=f'layer {built[-1]["name"]}', attrs={'name': built[-1]['name']})
+            return NotImplemented
+
+        def glob_hook(itp, mod, nm):
+            if nm == 'log': return Opaque('log')
+            return None
+        cfg_layers = {nm_: dict(c_, type='rock') for nm_, c_ in layers}
+        cfg = {'name': 'X', 'type': 'layered', 'radius': X.atom('R_world', 'pos'), 'layers': cfg_layers}
+        w = Obj(cls=('class', mlw, wcls), name='world', attrs={'config': cfg, '_config': cfg, 'world_class': 'layered', '_world_class': 'layered', 'name': 'X'})
+        it = Interp(repo, hooks={'expr': expr_hook, 'call': call_hook, 'global': glob_hook}, max_depth=6)
+        try:
+            it.call(mlw, init, [cfg], {'initialize': False}, self_obj=w)
+        except RaiseSignal as ex:
+            chk.ob('R16.7', f'LayeredWorld.__init__ [{lab}]: the layers are built', False, f'raises {ex.text[:100]}', mlw.where(init), key=f'R16.7|{lab}'); continue
+        want = [nm_ for nm_, _ in layers]
+        bad = []
+        if [b_['name'] for b_ in built] != want: bad.append(f'layers are built in the order {[b_["name"] for b_ in built]}, the configuration lists {want}')
+        if [concrete(X.lift(b_['index'])) if b_['index'] is not None else None for b_ in built] != list(range(len(built))): bad.append('layer indices are not 0..n-1 in build order')
+        if [bool(b_['top']) for b_ in built] != [False] * (len(built) - 1) + [True]: bad.append('the top-layer flag is not set for exactly the last layer built')
+        if any(b_['config'] is not cfg_layers.get(b_['name']) and b_['config'] != cfg_layers.get(b_['name']) for b_ in built): bad.append('a layer is handed another layer\'s configuration')
+        if list(w.attrs.get('config', cfg)['layers']) != want: bad.append(f'the order of config[\'layers\'] becomes {list(w.attrs.get("config", cfg)["layers"])}')
+        kept = w.attrs.get('_layers')
+        if isinstance(kept, (tuple, list)) and [getattr(l_, 'attrs', {}).get('name') for l_ in kept] != want: bad.append('world.layers is not in configuration order')
+        chk.ob('R16.7', f'LayeredWorld.__init__ [{lab}]: layers are built bottom to top in configuration order, numbered 0..n-1, only the last one marked as top', not bad, '; '.join(bad[:3]), mlw.where(init),
+               key=f'R16.7|{lab}', method='interpretation of the constructor with the layer class replaced by a recorder')
+    chk.floor('R16.7', 5)
 
 
 def shipped_configs(chk):
